@@ -41,6 +41,7 @@ FEATURES = [
     ("parenthesis-before-type", ["paren-before-type", "paren-directive"], "paren-before-type"),
     ("relative-origin-directive", ["$ORIGIN-rel"], "$ORIGIN-rel"),
     ("relative-svcb-target", ["rdname-rel:SVCB", "rdname-rel:HTTPS"], "rdname-rel-svcb"),
+    ("interior-underscore-in-label", ["name-interior-underscore"], None),
     ("text-ends-inside-parentheses", ["lex-err: unclosed ( at the end of the text, directly after a word",
                                       "lex-err: unclosed ( at the end of the text, inside a comment"], None),
 ]
@@ -53,6 +54,7 @@ HINTS = [
     ("unrecognized token in stream: List(", ["parenthesis-before-type"]),
     ("unrecognized token in stream: At", ["at-sign-as-rdata-name", "unquoted-string-starting-with-at"]),
     ("unrecognized dollar content", ["unquoted-string-starting-with-dollar"]),
+    ("Label contains invalid characters", ["interior-underscore-in-label"]),
 ]
 
 
@@ -106,7 +108,7 @@ LEX_CFG = [
 ]
 
 
-def _mc(res, wd, name, tla, cfg, allow_zero, seen_actions, workers=8, timeout=1500):
+def _mc(res, wd, name, tla, cfg, allow_zero, seen_actions, workers=6, timeout=1500):
     st = vlib.mc(os.path.join(vlib.SPEC, tla), cfg, wd, workers=workers, allow_zero=allow_zero, timeout=timeout)
     res.add_mc(name, st)
     for a, n in st["coverage"].items():
@@ -231,8 +233,12 @@ def run(res, tier, seed):
 
     # ---------------------------------------------------------------- R (i): whole files
     per = 120 if not thorough else 500
-    runs = [("core", "{}", "G_All", "G_None", 10), ("core2", "{}", "G_All", "G_None", 14),
-            ("zone", "{}", "G_Zone", "G_Soa", 10), ("zone2", "{}", "G_Zone", "G_Soa", 14)]
+    runs = [("core", "{}", "G_Core", "G_None", 10), ("core2", "{}", "G_All", "G_None", 14),
+            ("zone", "{}", "G_Zone", "G_Soa", 10), ("zone2", "{}", "G_ZoneB", "G_Soa", 14),
+            # classes other than IN (class inherited from the previous entry), <character-string> and label
+            # boundary values, and (kept apart) interior underscores
+            ("nonin", "{}", "G_NonIN", "G_None", 9), ("bounds", "{}", "G_BL", "G_None", 8),
+            ("label_und", "{}", "G_AllUnd", "G_None", 8)]
     for _name, _ind, sw in FEATURES:
         if sw:
             runs.append((sw.replace("$", "").replace("-", "_"), '{"%s"}' % sw, "G_All", "G_None", 8))
@@ -249,6 +255,10 @@ def run(res, tier, seed):
                                 [l.format(records=records, first=first, maxrr=maxrr, minrr=maxrr // 2, maxent=maxrr + 8)
                                  for l in GEN_CFG])
         n = per if "core" in name or "zone" in name else max(per // 2, 60)
+        if name in ("label_und", "bounds"):
+            n = max(per // 4, 30)
+        elif name in ("core2", "zone2"):
+            n = per * 2 // 3
         cases, _st = vlib.gen(tla, cfg, swd, timeout=1200 if thorough else 400, simulate=(n, 400), seed=seed * 1000 + i + 1,
                               heap="2g")
         return name, cases
@@ -275,7 +285,7 @@ def run(res, tier, seed):
     for name, alpha, minlen, maxlen, tpl in lex_runs:
         tla, cfg = vlib.wrapper(wd, name, "Gen_ZoneLex", {},
                                 [l.format(alpha=alpha, minlen=minlen, maxlen=maxlen, tpl=tpl) for l in LEX_CFG])
-        cases, st = vlib.gen(tla, cfg, wd, workers=8, timeout=1500, heap="6g")
+        cases, st = vlib.gen(tla, cfg, wd, workers=6, timeout=1500, heap="6g")
         vlib.log(f"[c20] Gen_ZoneLex {name}: {len(cases)} texts")
         if not cases:
             raise vlib.ToolError(f"generator {name} produced no cases")
